@@ -194,7 +194,7 @@ func c13RunWorkers(c *Cfg, cases []*c13Case) {
 							used := procCPU(pp.cmd.Process.Pid) - cpu0
 							lim := cpuLimit
 							if cs.probe {
-								lim = 2.5
+								lim = 5
 							}
 							if used > lim || time.Since(t0) > wallCap {
 								waiting = false
